@@ -58,11 +58,14 @@ def parse_info(info):
         v.append(("info-shape", "COSE_Encrypt element types"))
         return res
     res["protected"] = prot.val
-    if prot.val != bytes.fromhex("a10103"):
-        v.append(("info-protected", f"protected header {prot.val.hex()} does not name AES-GCM-256 (a10103)"))
+    # the property: names AES-GCM-256 (alg 3) in the protected header; further parameters are not forbidden
+    pm = mcbor.try_decode(prot.val)
+    pmap = pm.py() if pm is not None and pm.mt == 5 else None
+    if not isinstance(pmap, dict) or pmap.get(1) != 3:
+        v.append(("info-protected", f"protected header {prot.val.hex()} does not name AES-GCM-256 ({{1: 3}})"))
     u = unprot.py()
-    if not isinstance(u, dict) or set(u) != {5} or not isinstance(u[5], bytes) or len(u[5]) != 12:
-        v.append(("info-iv", f"unprotected header is not {{5: 12-byte IV}}: {unprot.raw.hex()[:60]}"))
+    if not isinstance(u, dict) or not isinstance(u.get(5), bytes) or len(u[5]) != 12:
+        v.append(("info-iv", f"unprotected header does not publish a 12-byte IV under key 5: {unprot.raw.hex()[:60]}"))
     if isinstance(u, dict) and isinstance(u.get(5), bytes):
         res["iv"] = u[5]
     if ct.mt != 7 or ct.val is not None:
@@ -71,9 +74,13 @@ def parse_info(info):
         v.append(("info-recipients", "not exactly one recipient [protected, unprotected, ciphertext]"))
         return res
     rp, ru, rc = recips.items[0].items
-    if rp.mt != 2 or rp.val != b"":
-        v.append(("info-recipients", "recipient protected header is not h''"))
+    if rp.mt != 2:
+        v.append(("info-recipients", "recipient protected header is not a byte string"))
     rup = ru.py() if ru.mt == 5 else None
+    # algorithm and key id of the recipient may sit in its protected or unprotected header
+    rpm = mcbor.try_decode(rp.val) if rp.mt == 2 and rp.val else None
+    if isinstance(rup, dict) and rpm is not None and rpm.mt == 5 and isinstance(rpm.py(), dict):
+        rup = {**rpm.py(), **rup}
     res["recipient_unprotected"] = rup
     res["recipient_ct"] = rc.py()
     if not ru.all_definite_shortest() or not t.all_definite_shortest():
@@ -84,7 +91,7 @@ def parse_info(info):
 def check_recipient(res, kid, want_alg=-6, want_ct=None):
     v = []
     rup = res.get("recipient_unprotected")
-    if rup != {1: want_alg, 4: mcbor.enc(kid)}:
+    if not isinstance(rup, dict) or rup.get(1) != want_alg or rup.get(4) != mcbor.enc(kid):
         v.append(("info-recipient-header", f"recipient header {rup!r} != {{1: {want_alg}, 4: h'{mcbor.enc(kid).hex()}'}}"))
     if res.get("recipient_ct") != want_ct:
         v.append(("info-recipient-ciphertext", f"recipient ciphertext {res.get('recipient_ct')!r} != {want_ct!r}"))
